@@ -3,6 +3,7 @@ package main
 import (
 	"bytes"
 	"fmt"
+	"math"
 	"os"
 	"runtime"
 	"runtime/debug"
@@ -93,6 +94,7 @@ type Exec struct {
 	pointActs  map[int]string // n-th point -> action
 	pointFired int
 	inPoint    bool
+	racePoints []int // per goroutine (1..Gs): statement points reached
 }
 
 // onPoint is called before every statement of the instrumented library.
@@ -170,6 +172,23 @@ func opOracle(op string) Oracles {
 		return oSize
 	}
 	return 0
+}
+
+// kOf decodes the k of TopK/BottomK: negative trace values stand for counts
+// that do not fit an int (the statement says "for every n").
+func kOf(n int) uint {
+	switch n {
+	case -1:
+		return math.MaxUint
+	case -2:
+		return 1 << 63
+	case -3:
+		return math.MaxInt
+	}
+	if n < 0 {
+		return 0
+	}
+	return uint(n)
 }
 
 func isSeqOp(op string) bool {
@@ -638,6 +657,14 @@ func (e *Exec) treeStep(i int, s *Step) (*Violation, bool) {
 			return v, false
 		}
 	}
+	if e.or&oDigest != 0 && mutated && e.prop == "C15" {
+		n := len(e.tr.Steps)
+		if n <= 48 || i%max(1, n/8) == 0 || i == n-1 {
+			if v := e.twinCheck(i, s.T, true, "wrong-result", "C15-readonly-affected-later-result"); v != nil {
+				return v, false
+			}
+		}
+	}
 	if ts.m.Len() == 0 && sizeBefore > 0 {
 		ts.wasEmpty = true
 		e.st.Probes["tree_emptied_by_deletion"]++
@@ -758,10 +785,10 @@ func (e *Exec) expectedSeq(ts *treeState, s *Step) []entry {
 	case "back":
 		return reversed(m.es)
 	case "botk":
-		n := min(s.N, m.Len())
+		n := int(min(kOf(s.N), uint(m.Len())))
 		return m.es[:n]
 	case "topk":
-		n := min(s.N, m.Len())
+		n := int(min(kOf(s.N), uint(m.Len())))
 		return reversed(m.es)[:n]
 	case "range":
 		b := []byte(s.K2)
@@ -787,7 +814,7 @@ func (e *Exec) expectedSeq(ts *treeState, s *Step) []entry {
 
 func (e *Exec) doSeq(i int, s *Step, ts *treeState) *Violation {
 	api := ts.api
-	seq := api.Seq(s.Op, s.K, s.K2, uint(s.N))
+	seq := api.Seq(s.Op, s.K, s.K2, kOf(s.N))
 	full := collectSeq(seq)
 	e.note(uint64(i))
 	e.notePairs(full)
@@ -862,6 +889,30 @@ func (e *Exec) checkAbandon(i int, s *Step, ts *treeState, seq SeqFn, full []pai
 	if !pairsEqual(again, full) {
 		return e.viol("wrong-result", "C14-reiterate", i, "tree %d (%s): ranging again over the same %s(%x,%x,n=%d) sequence yielded %d element(s); the first complete pass yielded %d", s.T, ts.cfg.Key, s.Op, []byte(s.K), []byte(s.K2), s.N, len(again), n)
 	}
+	// "with the tree unchanged": other read-only calls in between change nothing,
+	// so the same sequence value must still yield the same result after them
+	if m := ts.m; m.Len() > 0 {
+		api := ts.api
+		api.Search(m.es[0].orig)
+		api.Search(m.es[m.Len()-1].orig)
+		api.Search(m.es[m.Len()/2].orig)
+		if len(s.K2) > 0 {
+			api.Search(s.K2)
+		}
+		api.Min()
+		if ts.cfg.Key.Kind != "compound" || true {
+			other := api.Seq("range", m.es[0].orig, m.es[m.Len()/2].orig, 0) // built, deliberately not ranged over
+			_ = other
+		}
+		if ts.cfg.Key.HasPrefix() {
+			_ = api.Seq("prefix", m.es[m.Len()-1].orig, nil, 0)
+		}
+		again = collectSeq(seq)
+		if !pairsEqual(again, full) {
+			return e.viol("wrong-result", "C14-reiterate-after-queries", i, "tree %d (%s): after other read-only calls on the unchanged tree, ranging again over the same %s(%x,%x,n=%d) sequence yielded %d element(s) %s; the first complete pass yielded %d %s", s.T, ts.cfg.Key, s.Op, []byte(s.K), []byte(s.K2), s.N, len(again), fmtPairs(again, 5), n, fmtPairs(full, 5))
+		}
+		e.st.Probes["reiterate_after_queries"]++
+	}
 	return nil
 }
 
@@ -921,18 +972,18 @@ func (e *Exec) checkExtremes(i, ti int, ts *treeState) *Violation {
 			return
 		}
 		n := ts.m.Len()
-		for _, k := range []int{0, 1, n - 1, n, n + 1, n + 7} {
-			if k < 0 {
-				continue
+		for _, k := range []int{0, 1, n - 1, n, n + 1, n + 7, -1, -2, -3} {
+			if k == n-1 && k < 0 {
+				continue // n == 0: there is no "size-1"
 			}
 			st := Step{Op: "botk", N: k}
-			got := collectSeq(ts.api.Seq("botk", nil, nil, uint(k)))
+			got := collectSeq(ts.api.Seq("botk", nil, nil, kOf(k)))
 			if err := e.compareSeq(ts, fmt.Sprintf("BottomK(%d)", k), got, e.expectedSeq(ts, &st)); err != nil {
 				v = e.viol("wrong-result", "C05-bottomk", i, "tree %d (%s): %v", ti, ts.cfg.Key, err)
 				return
 			}
 			st.Op = "topk"
-			got = collectSeq(ts.api.Seq("topk", nil, nil, uint(k)))
+			got = collectSeq(ts.api.Seq("topk", nil, nil, kOf(k)))
 			if err := e.compareSeq(ts, fmt.Sprintf("TopK(%d)", k), got, e.expectedSeq(ts, &st)); err != nil {
 				v = e.viol("wrong-result", "C05-topk", i, "tree %d (%s): %v", ti, ts.cfg.Key, err)
 				return
@@ -1106,6 +1157,13 @@ func firstDiff(a, b []byte) int {
 // finalSweep: at the end of the run every stored key is searched once more.
 func (e *Exec) finalSweep() *Violation {
 	last := len(e.tr.Steps)
+	if e.prop == "C12" && len(e.trees) > 1 {
+		for ti := range e.trees {
+			if v := e.twinCheck(last-1, ti, false, "wrong-result", "C12-not-as-alone"); v != nil {
+				return v
+			}
+		}
+	}
 	for ti, ts := range e.trees {
 		if e.or&(oMap|oVal) != 0 {
 			if v := e.fullContentCheck(last, ti, ts, "wrong-result", "C01-final-sweep", "at the end of the run", e.or&oIter != 0); v != nil {
@@ -1119,4 +1177,127 @@ func (e *Exec) finalSweep() *Violation {
 func init() {
 	debug.SetGCPercent(-1)
 	debug.SetPanicOnFault(true)
+}
+
+// ---- twin replay: C15 ("read-only calls may be interleaved anywhere without
+// affecting any later result") and C12 ("exactly the results it would produce alone") ----
+
+type observation struct {
+	min, max   pair
+	minOK      bool
+	maxOK      bool
+	size       int
+	all, back  []pair
+	top, bot   []pair
+	found      []bool
+	ids        []uint64
+	dig        []byte
+}
+
+func observe(ts *treeState, probes [][]byte, withDigest bool) (o observation, msg string) {
+	msg = guard(func() {
+		api := ts.api
+		api.Buf2(layExact)
+		o.min.k, o.min.id, o.minOK, o.min.vok = api.Min()
+		o.max.k, o.max.id, o.maxOK, o.max.vok = api.Max()
+		o.size = api.Size()
+		o.all = collectSeq(api.Seq("all", nil, nil, 0))
+		o.back = collectSeq(api.Seq("back", nil, nil, 0))
+		o.top = collectSeq(api.Seq("topk", nil, nil, 3))
+		o.bot = collectSeq(api.Seq("botk", nil, nil, 3))
+		for _, k := range probes {
+			id, f, _ := api.Search(k)
+			o.found = append(o.found, f)
+			o.ids = append(o.ids, id)
+		}
+		if withDigest {
+			o.dig = digestOf(api.Dump(), api.ValID, true)
+		}
+	})
+	return
+}
+
+func (a *observation) diff(b *observation) string {
+	switch {
+	case a.minOK != b.minOK || !bytes.Equal(a.min.k, b.min.k) || a.min.id != b.min.id:
+		return fmt.Sprintf("Minimum() gives (%x,%d,%v) vs (%x,%d,%v)", a.min.k, a.min.id, a.minOK, b.min.k, b.min.id, b.minOK)
+	case a.maxOK != b.maxOK || !bytes.Equal(a.max.k, b.max.k) || a.max.id != b.max.id:
+		return fmt.Sprintf("Maximum() gives (%x,%d,%v) vs (%x,%d,%v)", a.max.k, a.max.id, a.maxOK, b.max.k, b.max.id, b.maxOK)
+	case a.size != b.size:
+		return fmt.Sprintf("Size() gives %d vs %d", a.size, b.size)
+	case !pairsEqual(a.all, b.all):
+		return fmt.Sprintf("All() gives %d pairs %s vs %d pairs %s", len(a.all), fmtPairs(a.all, 5), len(b.all), fmtPairs(b.all, 5))
+	case !pairsEqual(a.back, b.back):
+		return fmt.Sprintf("Backward() gives %d pairs vs %d pairs", len(a.back), len(b.back))
+	case !pairsEqual(a.top, b.top):
+		return "TopK(3) differs"
+	case !pairsEqual(a.bot, b.bot):
+		return "BottomK(3) differs"
+	}
+	for i := range a.found {
+		if a.found[i] != b.found[i] || a.ids[i] != b.ids[i] {
+			return fmt.Sprintf("Search of probe %d gives (%d,%v) vs (%d,%v)", i, a.ids[i], a.found[i], b.ids[i], b.found[i])
+		}
+	}
+	if a.dig != nil && b.dig != nil && !bytes.Equal(a.dig, b.dig) {
+		return fmt.Sprintf("raw structure differs (first difference at byte %d)", firstDiff(a.dig, b.dig))
+	}
+	return ""
+}
+
+// twinCheck replays tree ti's own sub-history (up to and including step upto)
+// on a fresh tree — mutations only when mutationsOnly — and demands the same
+// observable state as the tree that lived through the whole run.
+func (e *Exec) twinCheck(upto, ti int, mutationsOnly bool, class, oracle string) *Violation {
+	ts := e.trees[ti]
+	sub := &Trace{Prop: "twin", Seed: e.tr.Seed, Run: e.tr.Run, Domain: e.tr.Domain, Trees: []TreeCfg{ts.cfg}}
+	sub.Trees[0].Shared = false
+	for i := 0; i <= upto && i < len(e.tr.Steps); i++ {
+		s := e.tr.Steps[i]
+		if s.T != ti {
+			continue
+		}
+		if mutationsOnly && s.Op != "ins" && s.Op != "del" {
+			continue
+		}
+		s.T = 0
+		s.Lay, s.Pad = 0, 0
+		sub.Steps = append(sub.Steps, s)
+	}
+	te := newExec(sub, e.known)
+	var tv *Violation
+	if msg := guard(func() { tv = te.Run() }); msg != "" || tv != nil {
+		e.st.Upstream++
+		return nil
+	}
+	var probes [][]byte
+	for i := range ts.m.es {
+		if i < 24 || i%7 == 0 {
+			probes = append(probes, ts.m.es[i].orig)
+		}
+	}
+	for i, k := range ts.deleted {
+		if i < 16 {
+			probes = append(probes, k)
+		}
+	}
+	withDig := mutationsOnly // the structure must be the same too when only queries were dropped
+	a, ma := observe(ts, probes, withDig)
+	b, mb := observe(te.trees[0], probes, withDig)
+	if ma != "" || mb != "" {
+		if ma != "" && mb == "" {
+			return e.viol(class, oracle, upto, "tree %d (%s): observing the tree panicked (%s) while the same history replayed on a fresh tree can be observed", ti, ts.cfg.Key, ma)
+		}
+		e.st.Upstream++
+		return nil
+	}
+	e.st.Probes["twin_replays"]++
+	if d := a.diff(&b); d != "" {
+		what := "alone on a fresh tree"
+		if mutationsOnly {
+			what = "on a fresh tree without the interleaved read-only calls"
+		}
+		return e.viol(class, oracle, upto, "tree %d (%s): after step %d the tree and the same history replayed %s disagree: %s", ti, ts.cfg.Key, upto, what, d)
+	}
+	return nil
 }
